@@ -329,6 +329,7 @@ typedef struct
 
 	int		do_not_close_descriptor ;
 	int		mode ;			/* Open mode : SFM_READ, SFM_WRITE or SFM_RDWR. */
+	int		seek_failed ;	/* True after a failed psf_fseek until a psf_fseek succeeds (src/file_io.c only). */
 } PSF_FILE ;
 
 
